@@ -15,7 +15,8 @@ Open Scope Z_scope.
 
 Definition bsim (m m' : amap BKey Binding) : Prop :=
   forall k, match get k m, get k m' with
-            | Some b, Some b' => b_raw b' = b_raw b /\ b_owner b' = b_owner b
+            | Some b, Some b' =>
+                b_raw b' = b_raw b /\ b_owner b' = b_owner b /\ (b_avail b' = true -> b_avail b = true)
             | None, None => True
             | _, _ => False
             end.
@@ -27,26 +28,29 @@ Lemma bsim_trans m1 m2 m3 : bsim m1 m2 -> bsim m2 m3 -> bsim m1 m3.
 Proof.
   intros H1 H2 k. specialize (H1 k). specialize (H2 k).
   destruct (get k m1), (get k m2), (get k m3); try tauto.
-  destruct H1, H2. split; congruence.
+  destruct H1 as (? & ? & ?), H2 as (? & ? & ?). repeat split; try congruence. auto.
 Qed.
 
 Lemma bsim_set m k b b' :
-  get k m = Some b -> b_raw b' = b_raw b -> b_owner b' = b_owner b -> bsim m (set k b' m).
+  get k m = Some b -> b_raw b' = b_raw b -> b_owner b' = b_owner b ->
+  (b_avail b' = true -> b_avail b = true) -> bsim m (set k b' m).
 Proof.
-  intros E Hr Ho k'. rewrite get_set.
+  intros E Hr Ho Ha k'. rewrite get_set.
   destruct (eqb_spec k' k) as [->|Hn]; [rewrite E; auto|].
   destruct (get k' m); auto.
 Qed.
 
 Lemma bsim_get m m' k b : bsim m m' -> get k m = Some b ->
-  exists b', get k m' = Some b' /\ b_raw b' = b_raw b /\ b_owner b' = b_owner b.
+  exists b', get k m' = Some b' /\ b_raw b' = b_raw b /\ b_owner b' = b_owner b
+    /\ (b_avail b' = true -> b_avail b = true).
 Proof.
   intros Hs E. specialize (Hs k). rewrite E in Hs.
   destruct (get k m') as [b'|]; [eauto|contradiction].
 Qed.
 
 Lemma bsim_get_rev m m' k b' : bsim m m' -> get k m' = Some b' ->
-  exists b, get k m = Some b /\ b_raw b' = b_raw b /\ b_owner b' = b_owner b.
+  exists b, get k m = Some b /\ b_raw b' = b_raw b /\ b_owner b' = b_owner b
+    /\ (b_avail b' = true -> b_avail b = true).
 Proof.
   intros Hs E. specialize (Hs k). rewrite E in Hs.
   destruct (get k m) as [b|]; [eauto|contradiction].
@@ -124,8 +128,9 @@ Qed.
 
 Lemma ff_put_binding s k b b' :
   get k (binds s) = Some b -> b_raw b' = b_raw b -> b_owner b' = b_owner b ->
+  (b_avail b' = true -> b_avail b = true) ->
   fframe s (put_binding s k b').
-Proof. intros E Hr Ho. frame_triv. eapply bsim_set; eauto. Qed.
+Proof. intros E Hr Ho Ha. frame_triv. eapply bsim_set; eauto. Qed.
 
 Lemma ff_deactivate s r : fframe s (deactivate s r).
 Proof. unfold deactivate. destruct (get r (reqs s)); frame_triv. Qed.
@@ -135,11 +140,11 @@ Proof.
   unfold slash. intros H. inv_ok H.
   rename a into q, a0 into rc, a1 into b, a2 into sb, a3 into b2.
   pose proof (ff_burn _ _ _ Ha2) as Hfb.
-  assert (Hb2 : b_raw b2 = b_raw b /\ b_owner b2 = b_owner b).
-  { destruct (b_avail (setb_deposit b (b_deposit b - mul_trunc (b_deposit b) (p_slash cfg)))).
+  assert (Hb2 : b_raw b2 = b_raw b /\ b_owner b2 = b_owner b /\ (b_avail b2 = true -> b_avail b = true)).
+  { destruct (b_avail (setb_deposit b (b_deposit b - mul_trunc (b_deposit b) (p_slash cfg)))) eqn:Eav.
     - inv_ok Ha3. subst b2. destruct (_ <? _); auto.
     - inv_ok Ha3. subst b2. auto. }
-  destruct Hb2 as [Hr Ho].
+  destruct Hb2 as (Hr & Ho & Hav).
   eapply fframe_trans; [exact Hfb|]. subst s1.
   eapply fframe_trans; [|apply ff_emit].
   apply ff_put_binding with (b := b); auto.
@@ -274,4 +279,278 @@ Proof.
   eapply fframe_trans; [|apply ff_tick].
   eapply fframe_trans; [|apply ff_fold; intros; apply ff_new_one].
   apply ff_fold; intros; apply ff_expire_one.
+Qed.
+
+(* ------------------------------------------------------------------ *)
+(* payments: only the bank and the log change *)
+
+Record cframe (s s' : State) : Prop := mk_cframe {
+  cf_defs : defs s' = defs s;
+  cf_binds : binds s' = binds s;
+  cf_pricing : pricing s' = pricing s;
+  cf_owner_of : owner_of s' = owner_of s;
+  cf_own_prov : own_prov s' = own_prov s;
+  cf_own_bind : own_bind s' = own_bind s;
+  cf_wdaddr : wdaddr s' = wdaddr s;
+  cf_earned : earned s' = earned s;
+  cf_own_earned : own_earned s' = own_earned s
+}.
+
+Lemma cframe_refl s : cframe s s.
+Proof. constructor; reflexivity. Qed.
+
+Lemma cframe_trans s1 s2 s3 : cframe s1 s2 -> cframe s2 s3 -> cframe s1 s3.
+Proof. intros [] []. constructor; congruence. Qed.
+
+Lemma cframe_fframe s s' : cframe s s' -> fframe s s'.
+Proof.
+  intros []. repeat split; try assumption.
+  match goal with H : binds s' = binds s |- _ => rewrite H end. apply bsim_refl.
+Qed.
+
+Lemma cf_transfer a b amt s s1 : transfer a b amt s = Some s1 -> cframe s s1.
+Proof. intros E. apply transfer_frame in E. rewrite E. constructor; reflexivity. Qed.
+
+Lemma cf_emit e s : cframe s (emit e s).
+Proof. constructor; reflexivity. Qed.
+
+Lemma cf_pay_deposit s k o amt s1 : pay_deposit s k o amt = Ok s1 -> cframe s s1.
+Proof.
+  intros E. apply pay_deposit_inv in E. destruct E as (s0 & Et & ->).
+  eapply cframe_trans; [eapply cf_transfer; eauto|apply cf_emit].
+Qed.
+
+Lemma min_deposit_ok cfg p md : min_deposit cfg p = Ok md ->
+  pr_price p * p_multiple cfg < INT_LIMIT /\ md = Z.max (pr_price p * p_multiple cfg) (p_min_deposit cfg).
+Proof.
+  unfold min_deposit. destruct (INT_LIMIT <=? pr_price p * p_multiple cfg) eqn:E; [discriminate|].
+  intros H. injection H as <-. b2p. split; [lia|reflexivity].
+Qed.
+
+(* ------------------------------------------------------------------ *)
+(* the five handlers that are not static, field by field *)
+
+Lemma define_inv s svc content ok s' : h_define s svc content ok = Ok s' ->
+  ok = true /\ get svc (defs s) = None /\ s' = set_defs s (set svc content (defs s)).
+Proof.
+  unfold h_define. intros H. inv_ok H. destruct (get svc (defs s)); inv_ok H. auto.
+Qed.
+
+Lemma setwd_inv s owner addr ok s' : h_set_withdraw s owner addr ok = Ok s' ->
+  ok = true /\ s' = set_wdaddr s (set owner addr (wdaddr s)).
+Proof. unfold h_set_withdraw. intros H. inv_ok H. auto. Qed.
+
+Lemma bind_inv cfg s svc prov dep pr qos owner ok s' :
+  h_bind cfg s svc prov dep pr qos owner ok = Ok s' ->
+  exists amt raw,
+    pr = Some raw
+    /\ has svc (defs s) = true
+    /\ get (svc, prov) (binds s) = None
+    /\ (get prov (owner_of s) = None \/ get prov (owner_of s) = Some owner)
+    /\ validate_pricing (parse_pricing raw) = true
+    /\ schema_pricing (parse_pricing raw) = true
+    /\ pr_price (parse_pricing raw) * p_multiple cfg < INT_LIMIT
+    /\ defs s' = defs s
+    /\ binds s' = set (svc, prov) (mkBinding amt raw qos true TIME0 owner) (binds s)
+    /\ pricing s' = set (svc, prov) (parse_pricing raw) (pricing s)
+    /\ own_bind s' = ladd (owner, svc, prov) (own_bind s)
+    /\ wdaddr s' = wdaddr s /\ earned s' = earned s /\ own_earned s' = own_earned s
+    /\ owner_of s' = (match get prov (owner_of s) with
+                      | Some _ => owner_of s | None => set prov owner (owner_of s) end)
+    /\ own_prov s' = (match get prov (owner_of s) with
+                      | Some _ => own_prov s | None => ladd (owner, prov) (own_prov s) end).
+Proof.
+  unfold h_bind. intros H. inv_ok H.
+  rename a into amt, a0 into raw, a1 into md, a2 into s1.
+  pose proof (cf_pay_deposit _ _ _ _ _ Ha2) as [F1 F2 F3 F4 F5 F6 F7 F8 F9].
+  apply min_deposit_ok in Ha1. destruct Ha1 as [Hlim _].
+  exists amt, raw. sproj.
+  assert (Hnb : get (svc, prov) (binds s) = None).
+  { apply negb_true_iff in Hc2. unfold has in Hc2. destruct (get (svc, prov) (binds s)); [discriminate|reflexivity]. }
+  assert (Hown : get prov (owner_of s) = None \/ get prov (owner_of s) = Some owner).
+  { destruct (get prov (owner_of s)); [right|now left]. apply Z.eqb_eq in Hc3. now subst. }
+  rewrite F4 in H.
+  destruct (get prov (owner_of s)) eqn:Eo; inv_ok H; subst s'; sproj;
+    rewrite ?F1, ?F2, ?F3, ?F4, ?F5, ?F6, ?F7, ?F8, ?F9; repeat split; auto.
+Qed.
+
+Lemma enable_inv cfg s svc prov dep owner ok s' :
+  h_enable cfg s svc prov dep owner ok = Ok s' ->
+  exists b amt md,
+    get (svc, prov) (binds s) = Some b /\ b_owner b = owner /\ b_avail b = false /\ 0 <= amt
+    /\ min_deposit cfg (pricing_of s (svc, prov)) = Ok md
+    /\ binds s' = set (svc, prov)
+         (setb_dtime (setb_avail (setb_deposit b (b_deposit b + amt)) true) TIME0) (binds s)
+    /\ defs s' = defs s /\ pricing s' = pricing s /\ owner_of s' = owner_of s
+    /\ own_prov s' = own_prov s /\ own_bind s' = own_bind s /\ wdaddr s' = wdaddr s
+    /\ earned s' = earned s /\ own_earned s' = own_earned s.
+Proof.
+  unfold h_enable. intros H. inv_ok H.
+  rename a into b, a0 into amt, a1 into md, a2 into s1.
+  assert (Hcf : cframe s s1).
+  { destruct (coins_empty dep); inv_ok Ha2; [subst; apply cframe_refl|]. eapply cf_pay_deposit; eauto. }
+  assert (Hamt : 0 <= amt).
+  { destruct (coins_empty dep); inv_ok Ha0; [lia|]. apply one_base_coin_pos in Ha0. lia. }
+  destruct Hcf as [F1 F2 F3 F4 F5 F6 F7 F8 F9].
+  exists b, amt, md. subst s'. sproj. b2p.
+  rewrite ?F1, ?F2, ?F3, ?F4, ?F5, ?F6, ?F7, ?F8, ?F9. repeat split; auto.
+Qed.
+
+(* update: the binding keeps key, owner and availability; if a new pricing text is
+   published it is valid, stored, and (for an available binding) below the Int limit *)
+Lemma update_inv cfg s svc prov dep pr qos owner ok s' :
+  h_update cfg s svc prov dep pr qos owner ok = Ok s' ->
+  exists b b',
+    get (svc, prov) (binds s) = Some b /\ b_owner b = owner
+    /\ b_owner b' = b_owner b /\ b_avail b' = b_avail b
+    /\ (binds s' = binds s \/ binds s' = set (svc, prov) b' (binds s))
+    /\ ((b_raw b' = b_raw b /\ pricing s' = pricing s)
+        \/ (pr = Some (Some (b_raw b'))
+            /\ binds s' = set (svc, prov) b' (binds s)
+            /\ pricing s' = set (svc, prov) (parse_pricing (b_raw b')) (pricing s)
+            /\ validate_pricing (parse_pricing (b_raw b')) = true
+            /\ schema_pricing (parse_pricing (b_raw b')) = true
+            /\ (b_avail b = true ->
+                pr_price (parse_pricing (b_raw b')) * p_multiple cfg < INT_LIMIT)))
+    /\ defs s' = defs s /\ owner_of s' = owner_of s
+    /\ own_prov s' = own_prov s /\ own_bind s' = own_bind s /\ wdaddr s' = wdaddr s
+    /\ earned s' = earned s /\ own_earned s' = own_earned s.
+Proof.
+  unfold h_update. intros H. inv_ok H.
+  rename a into b, a0 into amt, a1 into newp, a3 into s1.
+  assert (Hcf : cframe s s1).
+  { destruct (coins_empty dep); inv_ok Ha3; [subst; apply cframe_refl|]. eapply cf_pay_deposit; eauto. }
+  destruct Hcf as [F1 F2 F3 F4 F5 F6 F7 F8 F9].
+  apply Z.eqb_eq in Hc0.
+  set (b1 := if qos =? 0 then b else setb_qos b qos) in *.
+  assert (Hb1 : b_raw b1 = b_raw b /\ b_owner b1 = b_owner b /\ b_avail b1 = b_avail b)
+    by (subst b1; destruct (qos =? 0); auto).
+  destruct Hb1 as (Hr1 & Ho1 & Hv1).
+  set (b2 := setb_deposit b1 (b_deposit b1 + amt)) in *.
+  destruct (negb (qos =? 0) || negb (coins_empty dep) || match pr with Some _ => true | None => false end) eqn:Eupd.
+  - destruct newp as [[raw p]|].
+    + (* new pricing text *)
+      destruct pr as [[raw0|]|]; inv_ok Ha1; try discriminate.
+      subst raw0. match goal with Hp : parse_pricing _ = p |- _ => subst p end.
+      inv_ok H. subst s'. sproj.
+      exists b, (setb_raw b2 raw). cbn [b_owner b_avail b_raw setb_raw].
+      rewrite ?F1, ?F2, ?F3, ?F4, ?F5, ?F6, ?F7, ?F8, ?F9.
+      repeat split; auto.
+      right. repeat split; auto.
+      intros Hav. rewrite Hav, andb_true_l in Ha2. inv_ok Ha2.
+      apply min_deposit_ok in Ha1. tauto.
+    + inv_ok H. subst s'. sproj.
+      exists b, b2. rewrite ?F1, ?F2, ?F3, ?F4, ?F5, ?F6, ?F7, ?F8, ?F9.
+      repeat split; auto.
+  - inv_ok H. subst s'. exists b, b. repeat split; auto.
+Qed.
+
+(* ------------------------------------------------------------------ *)
+(* messages *)
+
+Definition static_op (o : Op) : bool :=
+  match o with
+  | ODefine _ _ _ | OBind _ _ _ _ _ _ _ | OUpdate _ _ _ _ _ _ _ | OEnable _ _ _ _ _
+  | OSetWd _ _ _ => false
+  | _ => true
+  end.
+
+Definition earn_op (o : Op) : bool :=
+  match o with ORespond _ _ _ _ _ _ | OWithdraw _ _ _ => true | _ => false end.
+
+Definition is_bind (o : Op) : bool :=
+  match o with OBind _ _ _ _ _ _ _ => true | _ => false end.
+
+Definition is_setwd (o : Op) : bool :=
+  match o with OSetWd _ _ _ => true | _ => false end.
+
+Lemma fframe_msg cfg s o s' :
+  handle cfg s o = Ok s' -> static_op o = true -> earn_op o = false -> fframe s s'.
+Proof.
+  intros H Hst He. destruct o; cbn [handle static_op earn_op] in *; try discriminate.
+  - (* disable *) unfold h_disable in H. inv_ok H. subst s'.
+    eapply ff_put_binding; eauto; cbn; discriminate.
+  - (* refund deposit *) unfold h_refund_deposit in H. inv_ok H. subst s'.
+    pose proof (cf_transfer _ _ _ _ _ Ha0) as Hcf.
+    eapply fframe_trans; [apply cframe_fframe; exact Hcf|].
+    eapply fframe_trans; [|apply ff_emit].
+    eapply ff_put_binding with (b := a); auto.
+    destruct Hcf as [_ F2 _ _ _ _ _ _ _]. now rewrite F2.
+  - (* call *) unfold h_call, create_context in H. inv_ok H. subst s'. frame_triv.
+  - (* modcall *) unfold create_context in H. inv_ok H. subst s'. frame_triv.
+  - (* pause *) unfold h_pause, authorized in H. inv_ok H. subst s'. frame_triv.
+  - (* start *) unfold h_start, authorized in H. inv_ok H.
+    match type of H with (if ?b then _ else _) = _ => destruct b end; inv_ok H; subst s'; frame_triv.
+  - (* kill *) unfold h_kill, authorized in H. inv_ok H. subst s'. frame_triv.
+  - (* update ctx *) unfold h_update_ctx, authorized in H. inv_ok H. subst s'. frame_triv.
+  - (* transfer *) unfold h_transfer in H. inv_ok H. eapply ff_transfer; eauto.
+  - (* end block *) injection H as <-. apply ff_end_block.
+Qed.
+
+Lemma sframe_respond cfg s r who code out out_valid ok s' :
+  h_respond cfg s r who code out out_valid ok = Ok s' -> sframe s s'.
+Proof.
+  intros H. apply respond_inv in H.
+  destruct H as (q & rc0 & s1 & rc & _ & Hq & Hrc0 & _ & _ & Hset & Hrc & ->).
+  assert (H1 : sframe s s1).
+  { destruct Hset as [[_ (sa & Es & Er)]|[_ Ea]].
+    - eapply sframe_trans; [eapply ff_slash; eauto|eapply ff_refund_fee; eauto].
+    - eapply sf_add_earned; eauto. }
+  eapply sframe_trans; [exact H1|].
+  eapply sframe_trans; [apply ff_resp_mid|apply ff_resp_finish].
+Qed.
+
+Lemma sframe_withdraw s owner prov ok s' : h_withdraw s owner prov ok = Ok s' -> sframe s s'.
+Proof.
+  unfold h_withdraw. intros H. inv_ok H.
+  destruct (prov =? 0).
+  - inv_ok H. subst s'. eapply sframe_trans; [|apply ff_emit].
+    eapply sframe_trans; [|eapply ff_transfer; eauto]. frame_triv.
+  - inv_ok H. subst s'. eapply sframe_trans; [|apply ff_emit].
+    eapply sframe_trans; [|eapply ff_transfer; eauto].
+    destruct (get0 prov (earned s) =? get0 owner (own_earned s)); [|destruct (_ <? 0)];
+      inv_ok Ha; subst a; frame_triv.
+Qed.
+
+Lemma sframe_msg cfg s o s' : handle cfg s o = Ok s' -> static_op o = true -> sframe s s'.
+Proof.
+  intros H Hst. destruct (earn_op o) eqn:He.
+  - destruct o; try discriminate; cbn [handle] in H.
+    + eapply sframe_respond; eauto.
+    + eapply sframe_withdraw; eauto.
+  - eapply fframe_msg; eauto.
+Qed.
+
+Lemma eframe_msg cfg s o s' : handle cfg s o = Ok s' -> earn_op o = false -> eframe s s'.
+Proof.
+  intros H He. destruct (static_op o) eqn:Hst; [eapply fframe_msg; eauto|].
+  destruct o; try discriminate; cbn [handle] in H.
+  - apply define_inv in H. destruct H as (_ & _ & ->). frame_triv.
+  - apply bind_inv in H. destruct H as (amt & raw & H). constructor; tauto.
+  - apply update_inv in H. destruct H as (b & b' & H). constructor; tauto.
+  - apply enable_inv in H. destruct H as (b & amt & md & H). constructor; tauto.
+  - apply setwd_inv in H. destruct H as (_ & ->). frame_triv.
+Qed.
+
+Lemma owner_of_msg cfg s o s' : handle cfg s o = Ok s' -> is_bind o = false ->
+  owner_of s' = owner_of s /\ own_prov s' = own_prov s.
+Proof.
+  intros H Hb. destruct (static_op o) eqn:Hst.
+  { pose proof (sframe_msg _ _ _ _ H Hst) as []. auto. }
+  destruct o; try discriminate; cbn [handle] in H.
+  - apply define_inv in H. destruct H as (_ & _ & ->). auto.
+  - apply update_inv in H. destruct H as (b & b' & H). tauto.
+  - apply enable_inv in H. destruct H as (b & amt & md & H). tauto.
+  - apply setwd_inv in H. destruct H as (_ & ->). auto.
+Qed.
+
+Lemma wdaddr_msg cfg s o s' : handle cfg s o = Ok s' -> is_setwd o = false -> wdaddr s' = wdaddr s.
+Proof.
+  intros H Hb. destruct (static_op o) eqn:Hst.
+  { pose proof (sframe_msg _ _ _ _ H Hst) as []. auto. }
+  destruct o; try discriminate; cbn [handle] in H.
+  - apply define_inv in H. destruct H as (_ & _ & ->). auto.
+  - apply bind_inv in H. destruct H as (amt & raw & H). tauto.
+  - apply update_inv in H. destruct H as (b & b' & H). tauto.
+  - apply enable_inv in H. destruct H as (b & amt & md & H). tauto.
 Qed.
